@@ -69,7 +69,8 @@ BestSeg(c, p) == CHOOSE i \in Best(c, p) : TRUE
 (* membership of a point at depth z whose foot is inside the trench; "unknown" where an inequality is tight *)
 Member(c, p) ==
   LET cls == Class(c, p) IN
-  IF p[2] < c.mind THEN "out"
+  IF p[2] < c.mind \/ p[2] > c.maxd THEN "out"            \* min depth <= depth <= max depth, both measured from the surface
+  ELSE IF p[2] = c.maxd THEN "unknown"
   ELSE IF cls \in {"before-start", "beyond-tip"} THEN "out"
   ELSE IF cls # "on-segment" THEN "unknown"
   ELSE LET i == BestSeg(c, p)
@@ -100,7 +101,7 @@ Doc(c) ==
   World(Cartesian,
         <<Line(IF c.kind = "fault" THEN "fault" ELSE "subducting plate", "line",
                IF c.mid THEN <<Pos(c, 0, 0), Pos(c, 0, 25), Pos(c, 0, 5 * TrenchLen5)>> ELSE <<Pos(c, 0, 0), Pos(c, 0, 5 * TrenchLen5)>>,
-               Pos(c, 20, 25), c.mind * U, 1500 * Km,
+               Pos(c, 20, 25), c.mind * U, c.maxd * U,
                [i \in 1..Len(c.segs) |-> Segment(c.segs[i].len * U, <<c.thick[1] * U, c.thick[2] * U>>, <<c.trunc[1] * U, c.trunc[2] * U>>, <<DipTerm(c.segs[i].dip)>>)],
                <<>>, <<CUniform(<<1>>, "replace") @@ ((IF c.kind = "fault" THEN "min distance fault center" ELSE "min distance slab top") :> -1000 * Km)>>, <<>>, <<>>)>>)
 
@@ -220,7 +221,9 @@ VARIABLE cfg
 Thicks == {<<5, 5>>, <<10, 5>>, <<5, 10>>}
 Truncs == {<<0, 0>>, <<-5, -5>>, <<0, 3>>}
 (* mid: the straight trench is given by three coordinates, the middle one exactly on the line (at w = 25) *)
-Init == cfg \in [kind : Kinds, segs : {<<s>> : s \in Seg}, thick : Thicks, trunc : Truncs, mind : {0, 10}, dir : 1..3, side : Sides, mid : BOOLEAN]
+(* maxd: the feature's max depth in lattice units -- 150 (1500 km, below everything) or 18 (180 km: it cuts the body) *)
+Init == cfg \in {c \in [kind : Kinds, segs : {<<s>> : s \in Seg}, thick : Thicks, trunc : Truncs, mind : {0, 10}, dir : 1..3, side : Sides, mid : BOOLEAN, maxd : {150, 18}] :
+                   c.maxd = 18 => (c.thick = <<5, 5>> /\ c.trunc = <<0, 0>> /\ ~c.mid /\ c.dir = 1)}
 CONSTANTS Reduced2,    \* TRUE: a second segment is only added to a reduced set of one-segment configurations (quick tier)
           Reduced3     \* TRUE: a third segment (hooks, S shapes, short middle segments) is only added where the truncation is zero and the trench runs along y
 Next == /\ Len(cfg.segs) < MaxSegments
